@@ -1,6 +1,7 @@
 """C10 — every UnixStr/UnixString produced by safe code is NUL-terminated (terminator typestate at every sink)."""
 from ..engine.prov import const_value, strip_casts, walk, walk_deep, show
 from ..engine.dtable import canon
+from ..engine.fold import fold
 from ..engine.cfg import span_str
 
 CONFIGS_QUICK = ["A", "B", "C"]
@@ -14,8 +15,9 @@ EXPLANATION = (
     "the true edge of `last() == Some(&0)` is NT; the scanner idiom (byte == 0 and index == len-1 both dominate) is NT; `b[..=buf_strlen(b)?]` is NT. A sink reached in state unknown is a violation. "
     "C10.2 the fallible constructors return Err on the `index != len-1` edge of the scanner (interior NUL) and UnixStr::try_from_bytes returns Err when no NUL was found; the const validator dominates the transmute in from_str_checked. "
     "C10.3 field privacy: UnixString.0 / UnixStr.0 are not public, so no safe external code can forge one. "
+    "C10.5 *_unchecked sinks inside private unsafe helpers (reachable only through this crate's safe API) match an audited idiom: a prefix ending at a NUL stored just before, or raw parts (pointer, len + 1) whose call sites pass <&UnixStr>.as_ptr() and a buffer of exactly strlen(pointer) bytes. "
     "C10.4 type-level witnesses: UnixString's constructor and bytes are private to rusl, literals with an interior NUL or without terminator are rejected at compile time; "
-    "NOT decided: that inputs with several NULs are handled as the caller intends beyond rejection; unsafe constructors (from_ptr, *_unchecked, write_all_sub_paths) are the caller's obligation.")
+    "NOT decided: that inputs with several NULs are handled as the caller intends beyond rejection; public unsafe constructors (from_ptr, *_unchecked) are the caller's obligation.")
 ASSUMPTIONS = ["the transfer table is the complete list of byte-vector operations used in these functions; any other mutation makes the state unknown (fail closed)",
                "type invariant: the byte field of an existing UnixStr/UnixString is NUL-terminated (established inductively by this very rule at every sink)"]
 
@@ -323,6 +325,87 @@ def run_one(ck, prog):
         ctx = prog.ctx(cv[0])
         panics = [bb for bb, t in ctx.cfg.calls(lambda t: "panic" in (t.get("callee") or ""))]
         ck.ob("C10.2", "const-validator-asserts", len(panics) >= 2, fn=cv[0]["path"], detail=f"the const validator must reject both a missing terminator and an interior NUL (assertion sites: {len(panics)})")
+
+    # ---- C10.5 unchecked sinks inside private unsafe helpers: the obligation is discharged here, across the call ------------------------
+    # `unsafe fn` helpers that are not public can only be reached from this crate's safe API, so their *_unchecked sinks are part of
+    # "every UnixStr handed out / to the kernel by safe code is terminated". Two audited idioms:
+    #   I1  &buf[..=i] right after `buf[i] = 0`          (nothing else stored into buf before the sink)
+    #   I2  from_raw_parts(P, len(B) + 1) with P, B parameters: every call site passes P = <&UnixStr parameter>.as_ptr() and a B whose
+    #       length is strlen(P), i.e. the slice ends exactly at that string's own terminator
+    n5 = 0
+    for p, fn in sorted(prog.fns.items()):
+        if fn["crate"] not in ("rusl", "tiny_std") or not fn.get("unsafe") or fn.get("vis") == "Public" or fn.get("is_test"):
+            continue
+        ctx = None
+        for b in fn["blocks"]:
+            t = b["term"]
+            if t["k"] != "call" or b.get("cleanup") or not (t.get("callee") or "").endswith(("UnixStr::from_bytes_unchecked", "UnixStr::from_str_unchecked")):
+                continue
+            ctx = ctx or prog.ctx(fn)
+            cfg = ctx.cfg
+            if b["id"] not in cfg.live_blocks():
+                continue
+            n5 += 1
+            arg = ctx.args(b["id"])[0]
+            key = f"{p}|unchecked-sink#{n5}"
+            idx_calls = [z for z in walk_deep(arg, ctx.prov, limit=80) if z[0] == "call" and (z[1] or "").endswith("Index::index")]
+            raw = [z for z in walk_deep(arg, ctx.prov, limit=80) if z[0] == "call" and (z[1] or "").endswith("slice::raw::from_raw_parts")]
+            if idx_calls and any(str(r[1]).endswith("RangeToInclusive") for z in idx_calls for r in walk_deep(z[2][1], ctx.prov, limit=40) if r[0] == "agg"):
+                # I1: a store of 0 into the same buffer at the same index dominates the sink, and every other element store dominated by it comes after the sink
+                z = idx_calls[0]
+                rng = [r for r in walk_deep(z[2][1], ctx.prov, limit=40) if r[0] == "agg"][0]
+                iexpr = canon(rng[3][0])
+                stores = []
+                for b2 in fn["blocks"]:
+                    if b2["id"] not in cfg.live_blocks() or b2.get("cleanup"):
+                        continue
+                    for i2, st in enumerate(b2["stmts"]):
+                        if st["k"] == "assign" and st["dst"].get("p") and any(pe["k"] == "index" for pe in st["dst"]["p"]):
+                            v = fold(ctx.prov.rvalue(st["rv"], (b2["id"], i2)))
+                            stores.append((b2["id"], v))
+                nul = [sb for sb, v in stores if v == 0 and cfg.dominates(sb, b["id"])]
+                others = [sb for sb, v in stores if v != 0 and nul and cfg.dominates(nul[0], sb) and not cfg.dominates(b["id"], sb)]
+                ck.ob("C10.5", key + "|I1-prefix-ends-at-stored-nul", bool(nul) and not others, fn=p, site=ctx.site(b["id"]),
+                      detail=f"&buf[..={iexpr}] is turned into a UnixStr: a store of 0 at that index must dominate it and nothing else may be stored into the buffer in between (NUL stores dominating: {len(nul)}, intervening stores: {len(others)})")
+            elif raw:
+                r = raw[0]
+                P, L = strip_casts(r[2][0]), strip_casts(r[2][1])
+                shape = isinstance(P, tuple) and P[0] == "param" and isinstance(L, tuple) and L[0] == "bin" and L[1] == "Add" and fold(L[3]) == 1 and \
+                    isinstance(strip_casts(L[2]), tuple) and strip_casts(L[2])[0] == "call" and (strip_casts(L[2])[1] or "").endswith("::len") and \
+                    any(w[0] == "param" for w in walk_deep(strip_casts(L[2])[2][0], ctx.prov, limit=20))
+                ok = shape
+                why = f"from_raw_parts({show(P)}, {show(L)})"
+                if shape:
+                    pk = P[1]
+                    bj = [w for w in walk_deep(strip_casts(L[2])[2][0], ctx.prov, limit=20) if w[0] == "param"][0][1]
+                    sites = 0
+                    for q, g in prog.fns.items():
+                        for b3 in g["blocks"]:
+                            t3 = b3["term"]
+                            if t3["k"] == "call" and t3.get("callee") == p and not b3.get("cleanup"):
+                                c3 = prog.ctx(g)
+                                if b3["id"] not in c3.cfg.live_blocks():
+                                    continue
+                                sites += 1
+                                a3 = c3.args(b3["id"])
+                                ptr_ok = isinstance(strip_casts(a3[pk - 1]), tuple) and strip_casts(a3[pk - 1])[0] == "call" and (strip_casts(a3[pk - 1])[1] or "").endswith("UnixStr::as_ptr")
+                                want_len = "strlen(" + canon(strip_casts(a3[pk - 1])) + ")"
+                                lens = [canon(w[2][1]) for w in walk_deep(a3[bj - 1], c3.prov, limit=80) if w[0] == "call" and (w[1] or "").endswith("from_raw_parts_mut") and len(w[2]) == 2]
+                                vecs = [w for w in walk_deep(a3[bj - 1], c3.prov, limit=80) if w[0] == "call" and (w[1] or "").endswith(("Vec::<T, A>::as_mut_slice", "Vec::<T, A>::as_slice"))]
+                                if vecs:
+                                    for sb, t4 in c3.cfg.calls(lambda t4: (t4.get("callee") or "").endswith("Vec::<T, A>::set_len")):
+                                        if c3.cfg.dominates(sb, b3["id"]) and canon(c3.args(sb)[0]) == canon(vecs[0][2][0]):
+                                            lens.append(canon(c3.args(sb)[1]))
+                                len_ok = bool(lens) and all(x == want_len for x in lens)
+                                ck.ob("C10.5", f"{key}|I2-call-site|{q}#{sites}", ptr_ok and len_ok, fn=q, site=c3.site(b3["id"]),
+                                      detail=f"the helper rebuilds the string from (pointer, len(buffer) + 1): the pointer must be <&UnixStr>.as_ptr() ({show(a3[pk - 1])}) and the buffer exactly strlen(pointer) bytes long (lengths found {lens}, required {want_len}); otherwise the last byte of the rebuilt string is not that string's terminator")
+                    ok = sites >= 1
+                    why += f"; call sites checked: {sites}"
+                ck.ob("C10.5", key + "|I2-raw-parts-of-a-terminated-string", ok, fn=p, site=ctx.site(b["id"]), detail=why)
+            else:
+                ck.ob("C10.5", key + "|audited-idiom", False, fn=p, site=ctx.site(b["id"]),
+                      detail=f"`{show(arg)[:160]}` is handed to {t['callee'].split('::')[-1]} inside a private unsafe helper and matches neither audited idiom (prefix ending at a NUL just stored; raw parts of a UnixStr up to its own terminator): nothing establishes that its last byte is NUL")
+    ck.floor("C10.5", "unchecked sinks in private unsafe helpers", n5, 2 if ck.config != "C" else 0)
 
     # ---- C10.3 privacy ----------------------------------------------------------------------------------------------
     for adt in (USTR, USTRING):
